@@ -26,7 +26,7 @@ def run(ctx):
                         functions=['FIX8::itoa<int>', 'FIX8::fast_atoi<int>'], bounds='every int32 v in [%d, %d]' % (lo, hi), desc='canonical text + parse-back'))
     ctx.add(Harness('C08_int_edges', H + '/C08_int.c', defines=['EDGES'], unwind=27, timeout=300, functions=['FIX8::itoa<int>', 'FIX8::fast_atoi<int>'],
                     bounds='52 boundary values: +-10^k, +-(10^k - 1), INT_MAX, INT_MIN and neighbours (the 7..10-digit ranges are exhaustive only in the thorough tier)', desc='canonical text + parse-back'))
-    precs = range(0, 10) if ctx.tier == 'thorough' else (0, 2, 9)
+    precs = range(0, 10) if ctx.tier == 'thorough' else (2,)
     for p in precs:
         ctx.add(Harness('C08_dtoa_p%d' % p, H + '/C08_dtoa.c', defines=defs + ['PREC=%d' % p, 'MODP_C="%s/runtime/modp_numtoa.c"' % REPO], unwind=26, cover_defines=['CX_V=1234.5678'],
                         flags=['-I', REPO + '/include', '--stop-on-fail'], backend='default', timeout=600 if ctx.tier == 'quick' else 3000, mem_gb=16,
